@@ -234,3 +234,30 @@ def returns_receiver(model: Model, ev, t: Term, recv: Term, depth: int = 0, cls:
     rets = [p for p in ps if p.exit != "raise"]
     s = sym(f.self_name)
     return bool(rets) and all(p.exit == "return" and p.value is not None and returns_receiver(model, ev, p.value, s, depth + 1, c) for p in rets)
+
+
+def syntactic_callers(model: Model, f: FunctionInfo) -> List[FunctionInfo]:
+    """Functions whose body calls something named like ``f`` (``x.<name>(...)`` or ``<name>(...)``)."""
+    out = []
+    for g in model.all_functions():
+        if g is f:
+            continue
+        for n in ast.walk(g.node):
+            if isinstance(n, ast.Call) and ((isinstance(n.func, ast.Attribute) and n.func.attr == f.name) or (isinstance(n.func, ast.Name) and n.func.id == f.name)):
+                out.append(g)
+                break
+    return out
+
+
+def lifted_to_callers(model: Model, f: FunctionInfo, within=None) -> bool:
+    """A private helper (``_name``) whose every caller is analysed with the helper's body run in place: its obligations are decided at the
+    callers, not on the helper alone."""
+    from ..sym import is_private_helper
+    if not is_private_helper(f):
+        return False
+    callers = syntactic_callers(model, f)
+    if not callers:
+        return False
+    if within is not None and not all(c.cls in within for c in callers):
+        return False
+    return True
